@@ -168,11 +168,55 @@ def seq_aggregates(crate):
     return out
 
 
+def _is_helper(b):
+    imp = b.get("impl") or {}
+    return b["kind"] in ("Fn", "AssocFn") and not b["vis"].startswith("Public") and not imp.get("trait") and not imp.get("trait_default")
+
+
+def ctor_bodies(crate):
+    """Bodies judged as constructors: those building a `Seq { .. }` value themselves, and those doing it through a crate-private
+    helper (a private/pub(crate) function holding the literal is inlined at its callers and judged there, never in isolation:
+    its argument is whatever the callers pass)."""
+    lit = seq_aggregates(crate)
+    helpers = {b["path"] for b, _ in lit if _is_helper(b)}
+    out = [(b, n) for b, n in lit if not _is_helper(b)]
+    seen = {b["path"] for b, _ in out}
+    callers_of = {h: 0 for h in helpers}
+    changed = True
+    while changed:
+        changed = False
+        for b in crate.bodies:
+            if b["path"] in seen:
+                continue
+            hit = 0
+            for bl in b["blocks"]:
+                t = bl["term"]
+                if bl["cleanup"] or t["k"] != "call" or "indirect" in t["func"]:
+                    continue
+                for key in (t["func"].get("resolved"), t["func"].get("def")):
+                    if key in helpers:
+                        hit += 1
+                        callers_of[key] = callers_of.get(key, 0) + 1
+                        break
+            if hit:
+                seen.add(b["path"])
+                if _is_helper(b):
+                    if b["path"] not in helpers:
+                        helpers.add(b["path"])
+                        changed = True
+                else:
+                    out.append((b, hit))
+    return out, helpers, callers_of
+
+
 def check(chk, cfg, which):
     """which: 'I-head' or 'I-align'"""
     bio = cfg.bio
     nctor = 0
-    for b, n in seq_aggregates(bio):
+    ctors, helpers, callers_of = ctor_bodies(bio)
+    for h in sorted(helpers):
+        chk.note("%s: crate-private constructor helper, judged at its %d inlining call sites" % (h, callers_of.get(h, 0)))
+    for b, n in ctors:
         imp = b.get("impl") or {}
         what = b["path"]
         if imp.get("derived") or "_serde" in what or "Deserialize" in what:
